@@ -25,7 +25,19 @@ PROPERTY = "C05"
 TITLE = "Bindings live exactly as long as one jaxtyped call or context block"
 
 KINDS = ["new-typeguard", "new-beartype", "old-typeguard", "none", "dataclass", "method", "old-beartype",
-         "bare-typeguard", "bare-beartype"]
+         "bare-typeguard", "bare-beartype", "propget-typeguard", "propset-typeguard", "propdel-typeguard",
+         "propdel-beartype", "classmethod-typeguard", "staticmethod-beartype"]
+
+
+def kind_info(kind):
+    """(the call's context has an argument `n`, the call binds 'a b' from its array argument)"""
+    if kind.startswith(("propget", "propdel")):
+        return False, False
+    if kind.startswith("propset"):
+        return False, True
+    if kind == "none" or kind.startswith("bare-"):
+        return True, False
+    return True, True
 EXITS = ["return", "ValueError", "KeyboardInterrupt", "GeneratorExit", "SystemExit"]
 CHECKS = ["a", "b", "a b", "a {n}", "c", "#a c"]
 
@@ -68,6 +80,8 @@ def instances(tier, seed):
         out.append(("core", dict(prog=[["ctx", [["check", "a"], ["badcall", k], ["observe"], ["check", "a"]], "return"], ["observe"]])))
         out.append(("core", dict(prog=[["call", "new-typeguard", [["check", "c"], ["badcall", k], ["observe"], ["check", "c"]], "return"], ["observe"]])))
     for k1, k2 in itertools.product(KINDS, repeat=2):
+        if (KINDS.index(k1) >= 9 or KINDS.index(k2) >= 9) and "new-typeguard" not in (k1, k2):
+            continue  # descriptor routes are paired with the plain new-style route only
         for ex in ("return", "ValueError", "KeyboardInterrupt"):
             g = "core" if (tier == "thorough" or rng.random() < 0.25) else "ext"
             out.append((g, dict(prog=[["call", k1, [["check", "b"], ["call", k2, [["check", "b"], ["observe"]], ex],
@@ -124,6 +138,17 @@ def get_fn(kind, ARR, gen=False, coro=False):
                "    def __post_init__(self):\n        self.body()\n")
     elif kind == "method":
         src = "class K:\n    def f(self, x: A, n, body):\n        return body()\n"
+    elif kind.startswith("prop"):
+        # a property decorated as a whole: getter, setter and deleter are each a decorated call
+        src = ("class K:\n"
+               "    def _get(self):\n        return self._body()\n"
+               "    def _set(self, x: A):\n        return self._body()\n"
+               "    def _del(self):\n        return self._body()\n"
+               "    p = property(_get, _set, _del)\n")
+    elif kind.startswith("classmethod"):
+        src = "class K:\n    @classmethod\n    def f(cls, x: A, n, body):\n        return body()\n"
+    elif kind.startswith("staticmethod"):
+        src = "class K:\n    @staticmethod\n    def f(x: A, n, body):\n        return body()\n"
     else:
         src = "def f(x: A, n, body):\n    return body()\n"
     exec(src, g)
@@ -135,6 +160,24 @@ def get_fn(kind, ARR, gen=False, coro=False):
             K = g["K"]
             K.f = jt.jaxtyped(typechecker=tc)(K.f)
             fn = K().f
+        elif kind.startswith("prop"):
+            K = g["K"]
+            K.p = jt.jaxtyped(typechecker=tc)(K.__dict__["p"])
+            how = kind.split("-")[0]
+
+            def fn(x, n, body, K=K, how=how):
+                o = K()
+                o._body = body
+                if how == "propget":
+                    return o.p
+                elif how == "propset":
+                    o.p = x
+                else:
+                    del o.p
+        elif kind.startswith(("classmethod", "staticmethod")):
+            K = g["K"]
+            K.f = jt.jaxtyped(typechecker=tc)(K.__dict__["f"])
+            fn = K.f if kind.startswith("staticmethod") else K().f
         elif kind.startswith("old-"):
             fn = jt.jaxtyped(tc(g["f"]))
         elif kind == "none":
@@ -228,8 +271,9 @@ def scenario(inst, V):
 
                 def docall(fn=fn, x=x, n=n, inner=inner, kind=kind, xs=xs):
                     depth = len(stack)
-                    fr = Frame({"n": core.lift(n)})
-                    if kind != "none" and not kind.startswith("bare-"):
+                    has_n, binds = kind_info(kind)
+                    fr = Frame({"n": core.lift(n)} if has_n else {})
+                    if binds:
                         fr.B = D.step(D.parse_ref("a b"), [core.lift(s) for s in xs], fr.B)["B"]
                     stack.append(fr)
                     try:
